@@ -30,12 +30,22 @@ where
     T: BalanceSelector + ?Sized,
 {
     txns.iter()
-        .chunk_by(|txn| group_by_op(txn))
+        .map(|txn| (group_by_op(txn), txn))
+        // group by key, not by adjacency: the key is not monotone in the instant
+        // when the report zone's clock falls back across a period boundary
+        .sorted_by(|a, b| a.0.cmp(&b.0))
+        .chunk_by(|(key, _)| key.clone())
         .into_iter()
         // .par // todo: par-map
         .map(|(group_by_key, bal_grp_txns)| {
-            Balance::from_iter(&group_by_key, bal_grp_txns, price_lookup_ctx, ras, settings)
-                .expect("Logic error with Balance Group: inner balance failed")
+            Balance::from_iter(
+                &group_by_key,
+                bal_grp_txns.map(|(_, txn)| txn),
+                price_lookup_ctx,
+                ras,
+                settings,
+            )
+            .expect("Logic error with Balance Group: inner balance failed")
         })
         .filter(|bal| !bal.is_empty())
         .sorted_by_key(|bal| bal.title.clone())
